@@ -16,20 +16,21 @@ import (
 // its destination type and its model twin).
 
 type TestSpec struct {
-	T    string  `json:"t"`
-	N    int64   `json:"n,omitempty"`
-	F    float64 `json:"f,omitempty"`
-	S    string  `json:"s,omitempty"`
-	L    []Val   `json:"l,omitempty"`
-	Not  bool    `json:"not,omitempty"`
-	Msg  string  `json:"msg,omitempty"`  // z.Message
-	Code string  `json:"code,omitempty"` // z.IssueCode
-	Path string  `json:"path,omitempty"` // z.IssuePath
-	Mod  int64   `json:"mod,omitempty"`  // custom: passes iff fnv(canon(value))%Mod != Rem; Mod==0 always passes
-	Rem  int64   `json:"rem,omitempty"`
-	MsgFn    bool `json:"msgfn,omitempty"`    // z.MessageFunc setting "MF:<code>"
-	Params   []KV `json:"params,omitempty"`   // z.Params(...) replaces the test's params
-	Reusable bool `json:"reusable,omitempty"` // custom test built with z.TestFunc(code, fn, opts...) and added with schema.Test(t)
+	T        string  `json:"t"`
+	N        int64   `json:"n,omitempty"`
+	F        float64 `json:"f,omitempty"`
+	S        string  `json:"s,omitempty"`
+	L        []Val   `json:"l,omitempty"`
+	Not      bool    `json:"not,omitempty"`
+	Msg      string  `json:"msg,omitempty"`  // z.Message
+	Code     string  `json:"code,omitempty"` // z.IssueCode
+	Path     string  `json:"path,omitempty"` // z.IssuePath
+	Mod      int64   `json:"mod,omitempty"`  // custom: passes iff fnv(canon(value))%Mod != Rem; Mod==0 always passes
+	Rem      int64   `json:"rem,omitempty"`
+	MsgFn    bool    `json:"msgfn,omitempty"`    // z.MessageFunc setting "MF:<code>"
+	Params   []KV    `json:"params,omitempty"`   // z.Params(...) replaces the test's params
+	Reusable bool    `json:"reusable,omitempty"` // custom test built with z.TestFunc(code, fn, opts...) and added with schema.Test(t)
+	TFunc    bool    `json:"tfunc,omitempty"`    // custom test written as z.Test{Func: func(val, ctx)} that adds its own issue via ctx.AddIssue(ctx.Issue()...)
 }
 
 type PTSpec struct {
@@ -44,17 +45,20 @@ type Field struct {
 }
 
 type Node struct {
-	Kind   string     `json:"kind"` // string int float bool time struct slice ptr custom pre
-	Req    bool       `json:"req,omitempty"`
-	Def    *Val       `json:"def,omitempty"`
-	Catch  *Val       `json:"catch,omitempty"`
-	Tests  []TestSpec `json:"tests,omitempty"`
-	PTs    []PTSpec   `json:"pts,omitempty"`
-	Fields []*Field   `json:"fields,omitempty"`
-	Elem   *Node      `json:"elem,omitempty"`
-	CT     string     `json:"ct,omitempty"` // custom: "string"|"int"; pre: "any_str"|"str_list"
-	ReqOpt *TestSpec  `json:"req_opt,omitempty"` // options passed to Required()/NotNil(): Msg, Code, Path
-	ID     int        `json:"-"`
+	Kind    string     `json:"kind"` // string int float bool time struct slice ptr custom pre
+	Req     bool       `json:"req,omitempty"`
+	Def     *Val       `json:"def,omitempty"`
+	Catch   *Val       `json:"catch,omitempty"`
+	Tests   []TestSpec `json:"tests,omitempty"`
+	PTs     []PTSpec   `json:"pts,omitempty"`
+	Fields  []*Field   `json:"fields,omitempty"`
+	Elem    *Node      `json:"elem,omitempty"`
+	CT      string     `json:"ct,omitempty"`      // custom: "string"|"int"; pre: "any_str"|"str_list"
+	ReqOpt  *TestSpec  `json:"req_opt,omitempty"` // options passed to Required()/NotNil(): Msg, Code, Path
+	W       string     `json:"w,omitempty"`       // width variant: int -> "64" (Int64 / int64), float -> "32" (Float32 / float32)
+	Coercer string     `json:"coercer,omitempty"` // z.WithCoercer on a primitive: "const" (always CoVal) | "fail" (always an error)
+	CoVal   *Val       `json:"co_val,omitempty"`
+	ID      int        `json:"-"`
 }
 
 func (n *Node) Clone() *Node {
@@ -84,6 +88,10 @@ func (n *Node) Clone() *Node {
 	if n.ReqOpt != nil {
 		ro := *n.ReqOpt
 		c.ReqOpt = &ro
+	}
+	if n.CoVal != nil {
+		cv := n.CoVal.Clone()
+		c.CoVal = &cv
 	}
 	c.Fields = nil
 	for _, f := range n.Fields {
@@ -182,8 +190,14 @@ func typeOf(n *Node, rev bool) reflect.Type {
 	case "string":
 		return reflect.TypeOf("")
 	case "int":
+		if n.W == "64" {
+			return reflect.TypeOf(int64(0))
+		}
 		return reflect.TypeOf(int(0))
 	case "float":
+		if n.W == "32" {
+			return reflect.TypeOf(float32(0))
+		}
 		return reflect.TypeOf(float64(0))
 	case "bool":
 		return reflect.TypeOf(false)
@@ -303,17 +317,17 @@ type Call struct {
 
 // OpRec is the per-operation recorder callbacks write to.
 type OpRec struct {
-	Calls     []Call
-	Root      reflect.Value // pointer to the destination root
-	RootNode  *Node
-	CtxKeys   []string
-	CbCount   int
-	PanicAt   int // 1-based index of the callback invocation that panics (0: never)
-	ErrAt     int // 1-based index of the error-capable callback invocation that fails (0: never)
-	ErrCount  int
-	FmtSeen   []string // issues observed by the execution-level formatter, in order: "path|code"
-	Injected  []string
-	Validate  bool
+	Calls    []Call
+	Root     reflect.Value // pointer to the destination root
+	RootNode *Node
+	CtxKeys  []string
+	CbCount  int
+	PanicAt  int // 1-based index of the callback invocation that panics (0: never)
+	ErrAt    int // 1-based index of the error-capable callback invocation that fails (0: never)
+	ErrCount int
+	FmtSeen  []string // issues observed by the execution-level formatter, in order: "path|code"
+	Injected []string
+	Validate bool
 }
 
 type injectedPanic struct{ msg string }
@@ -322,7 +336,7 @@ var errInjected = errors.New("injected callback error")
 
 // Engine owns the callback environment shared by all schemas of a world.
 type Engine struct {
-	Cur func() *OpRec // recorder of the operation the running task is in
+	Cur   func() *OpRec // recorder of the operation the running task is in
 	yield func(string)
 	Owned []Owned // harness-side handles on values handed to the schema (defaults, OneOf lists, ...)
 }
@@ -496,6 +510,17 @@ func (e *Engine) customFn(n *Node, idx int, t TestSpec, wantAddr bool) z.BoolTFu
 	}
 }
 
+// tfuncTest is the "complex custom test" flavour of the documentation: the function receives the value and the
+// context and reports failures itself.
+func (e *Engine) tfuncTest(n *Node, idx int, t TestSpec) z.Test {
+	return z.Test{IssueCode: t.Code, Func: func(val any, ctx z.Ctx) {
+		e.record(n, "test", idx, val, ctx, false)
+		if !CustomPass(t, val) {
+			ctx.AddIssue(ctx.Issue().SetCode(t.Code).SetMessage("TF:" + t.Code))
+		}
+	}}
+}
+
 func (e *Engine) postTransform(n *Node, idx int, p PTSpec) z.PostTransform {
 	return func(ptr any, ctx z.Ctx) error {
 		rec := e.record(n, "pt", idx, ptr, ctx, true)
@@ -617,11 +642,80 @@ func numVal(v Val) float64 {
 	return v.F
 }
 
+// buildNum builds a number schema of any width from the node description.
+func buildNum[T int | int64 | float64 | float32](e *Engine, n *Node, s *z.NumberSchema[T], conv func(Val) T, param func(TestSpec) T) z.ZogSchema {
+	if n.Req {
+		s.Required(reqOpts(n)...)
+	}
+	if n.Def != nil {
+		s.Default(conv(*n.Def))
+	}
+	if n.Catch != nil {
+		s.Catch(conv(*n.Catch))
+	}
+	for i, t := range n.Tests {
+		o := testOpts(t)
+		switch t.T {
+		case "custom":
+			if t.TFunc {
+				s.Test(e.tfuncTest(n, i, t))
+			} else {
+				s.TestFunc(e.customFn(n, i, t, false), o...)
+			}
+		case "eq":
+			s.EQ(param(t), o...)
+		case "gt":
+			s.GT(param(t), o...)
+		case "gte":
+			s.GTE(param(t), o...)
+		case "lt":
+			s.LT(param(t), o...)
+		case "lte":
+			s.LTE(param(t), o...)
+		case "oneof":
+			l := make([]T, len(t.L))
+			for k := range t.L {
+				l[k] = conv(t.L[k])
+			}
+			s.OneOf(e.own("oneof", n, l).([]T), o...)
+		default:
+			panic("harness: bad number test " + t.T)
+		}
+	}
+	for i, p := range n.PTs {
+		s.PostTransform(e.postTransform(n, i, p))
+	}
+	return s
+}
+
+// coercerOpts returns the z.WithCoercer option of a primitive node (a harness callback like any other).
+func (e *Engine) coercerOpts(n *Node) []z.SchemaOption {
+	if n.Coercer == "" {
+		return nil
+	}
+	return []z.SchemaOption{z.WithCoercer(func(data any) (any, error) {
+		if e.yield != nil {
+			e.yield("coercer")
+		}
+		if n.Coercer == "fail" || n.CoVal == nil {
+			return nil, fmt.Errorf("custom coercer rejects %T", data)
+		}
+		v := typedVal(n, *n.CoVal)
+		switch {
+		case n.Kind == "int" && n.W == "64":
+			return int64(v.(int)), nil
+		case n.Kind == "float" && n.W == "32":
+			return float32(v.(float64)), nil
+		}
+		return v, nil
+	})}
+}
+
 // Build constructs the zog schema for n. Every callback is harness code.
 func (e *Engine) Build(n *Node) z.ZogSchema {
 	switch n.Kind {
 	case "string":
-		s := z.String()
+		s := z.String(e.coercerOpts(n)...)
 		if n.Req {
 			s.Required(reqOpts(n)...)
 		}
@@ -634,7 +728,9 @@ func (e *Engine) Build(n *Node) z.ZogSchema {
 		for i, t := range n.Tests {
 			o := testOpts(t)
 			if t.T == "custom" {
-				if t.Reusable {
+				if t.TFunc {
+					s.Test(e.tfuncTest(n, i, t))
+				} else if t.Reusable {
 					s.Test(z.TestFunc(t.Code, e.customFn(n, i, t, false), o...))
 				} else {
 					s.TestFunc(e.customFn(n, i, t, false), o...)
@@ -731,79 +827,17 @@ func (e *Engine) Build(n *Node) z.ZogSchema {
 		}
 		return s
 	case "int":
-		s := z.Int()
-		if n.Req {
-			s.Required(reqOpts(n)...)
+		if n.W == "64" {
+			return buildNum(e, n, z.Int64(e.coercerOpts(n)...), func(v Val) int64 { return v.I }, func(t TestSpec) int64 { return t.N })
 		}
-		if n.Def != nil {
-			s.Default(int(n.Def.I))
-		}
-		if n.Catch != nil {
-			s.Catch(int(n.Catch.I))
-		}
-		for i, t := range n.Tests {
-			o := testOpts(t)
-			switch t.T {
-			case "custom":
-				s.TestFunc(e.customFn(n, i, t, false), o...)
-			case "eq":
-				s.EQ(int(t.N), o...)
-			case "gt":
-				s.GT(int(t.N), o...)
-			case "gte":
-				s.GTE(int(t.N), o...)
-			case "lt":
-				s.LT(int(t.N), o...)
-			case "lte":
-				s.LTE(int(t.N), o...)
-			case "oneof":
-				s.OneOf(e.own("oneof", n, valInts(t.L)).([]int), o...)
-			default:
-				panic("harness: bad int test " + t.T)
-			}
-		}
-		for i, p := range n.PTs {
-			s.PostTransform(e.postTransform(n, i, p))
-		}
-		return s
+		return buildNum(e, n, z.Int(e.coercerOpts(n)...), func(v Val) int { return int(v.I) }, func(t TestSpec) int { return int(t.N) })
 	case "float":
-		s := z.Float64()
-		if n.Req {
-			s.Required(reqOpts(n)...)
+		if n.W == "32" {
+			return buildNum(e, n, z.Float32(e.coercerOpts(n)...), func(v Val) float32 { return float32(numVal(v)) }, func(t TestSpec) float32 { return float32(t.F) })
 		}
-		if n.Def != nil {
-			s.Default(numVal(*n.Def))
-		}
-		if n.Catch != nil {
-			s.Catch(numVal(*n.Catch))
-		}
-		for i, t := range n.Tests {
-			o := testOpts(t)
-			switch t.T {
-			case "custom":
-				s.TestFunc(e.customFn(n, i, t, false), o...)
-			case "eq":
-				s.EQ(t.F, o...)
-			case "gt":
-				s.GT(t.F, o...)
-			case "gte":
-				s.GTE(t.F, o...)
-			case "lt":
-				s.LT(t.F, o...)
-			case "lte":
-				s.LTE(t.F, o...)
-			case "oneof":
-				s.OneOf(e.own("oneof", n, valFloats(t.L)).([]float64), o...)
-			default:
-				panic("harness: bad float test " + t.T)
-			}
-		}
-		for i, p := range n.PTs {
-			s.PostTransform(e.postTransform(n, i, p))
-		}
-		return s
+		return buildNum(e, n, z.Float64(e.coercerOpts(n)...), func(v Val) float64 { return numVal(v) }, func(t TestSpec) float64 { return t.F })
 	case "bool":
-		s := z.Bool()
+		s := z.Bool(e.coercerOpts(n)...)
 		if n.Req {
 			s.Required(reqOpts(n)...)
 		}
@@ -832,7 +866,7 @@ func (e *Engine) Build(n *Node) z.ZogSchema {
 		}
 		return s
 	case "time":
-		s := z.Time()
+		s := z.Time(e.coercerOpts(n)...)
 		if n.Req {
 			s.Required(reqOpts(n)...)
 		}
